@@ -34,6 +34,8 @@ ShapesShuf1    == {Shuf(One(<<"c1","c2">>)), Shuf3(One(<<"c1">>))}
 ShapesShuf2    == {Shuf(Two(<<"c1","c2">>, <<"c1">>))}
 ShapesSmall1   == ShapesChain1 \cup ShapesDiamond1 \cup ShapesVee1 \cup ShapesShuf1
 ShapesSmall2   == ShapesChain2 \cup ShapesVee2
+ShapesTwoQuick == {Chain3(Two(<<"a">>, <<"a">>)), Vee(Two(<<"a">>, <<"b">>))}
+ShapesTwo      == ShapesSmall2 \cup ShapesShuf2 \cup {Diamond(Two(<<"a">>, <<"b">>)), Diamond(Two(<<"a">>, <<"a">>))}
 ShapesAll      == ShapesSmall1 \cup ShapesSmall2 \cup ShapesShuf2 \cup {Diamond(Two(<<"a">>, <<"b">>))}
 
 \* tiny shapes for runs that must reach MaxLost = 5 consecutive losses
